@@ -427,8 +427,9 @@ def _entries_core(model):
 def _sweep_core(ctx, model, exc_classes):
     ents = _entries_core(model)
     ctx.floor("R-TOTAL", len(ents), 80, "public pattern-building entry points")
-    n_cases = 0
-    for label, f, kind, ci in ents:
+    def sweep_entry(ctx, ent):
+        label, f, kind, ci = ent
+        n_cases = 0
         a = f.node.args
         params = [p.arg for p in a.posonlyargs + a.args if p.arg != "self"]
         anns = {p.arg: (ast.unparse(p.annotation) if p.annotation is not None else "") for p in a.posonlyargs + a.args}
@@ -440,7 +441,7 @@ def _sweep_core(ctx, model, exc_classes):
         for tgt, val in base_cases:
             if B.NONTERM[0] > 12:
                 ctx.note("sweep stopped early: more than 12 inputs exhausted the step budget (non-termination already reported)")
-                return
+                return n_cases
             def thunk(it, tgt=tgt, val=val):
                 args = []
                 for p in params:
@@ -493,7 +494,8 @@ def _sweep_core(ctx, model, exc_classes):
                         ctx.violation("R-COMPILE", f.relpath, f.short, "<returned pattern>",
                                       "returns a pattern that re rejects when it is first used", f.node.lineno, inp=inp,
                                       detail=f"{o.text!r}: {why}")
-    ctx.extra["core_sweep_cases"] = n_cases
+        return n_cases
+    ctx.extra["core_sweep_cases"] = sum(ctx.parallel(ents, sweep_entry))
 
 
 def _sweep_class_algebra(ctx, model, exc_classes):
